@@ -83,9 +83,10 @@ Lemma if_increment : forall fo c v, (fst (i_increment fo c v), iforget (snd (i_i
 Proof.
   intros fo [ci cp ckl ck cty cvi cvs cch] v. unfold i_increment.
   destruct (increment fo (iforget (INode ci cp ckl ck cty cvi cvs cch)) (iforget v)) as [r [kl k ty vi vs ch]] eqn:E.
-  cbn [fst snd iforget]. unfold increment in E. cbn [iforget] in E.
+  cbn [fst snd iforget]. unfold increment, increment_v in E. cbn [iforget] in E.
   destruct (n_ty (iforget v)); try (inversion E; subst; reflexivity);
-    destruct cty; inversion E; subst; reflexivity.
+    destruct cty; try (inversion E; subst; reflexivity);
+    repeat match type of E with context [if ?b then _ else _] => destruct b end; inversion E; subst; reflexivity.
 Qed.
 
 (* ------------------------------------------------------------------ induction on identified trees *)
@@ -168,9 +169,9 @@ Proof.
       pose proof (if_increment fo c v) as I. destruct (i_increment fo c v) as [r c']. cbn [fst snd] in *.
       rewrite <- I. cbn [fst snd]. rewrite if_set_child. reflexivity.
     + destruct (is_dash s); [cbn [fst snd]; rewrite if_add_item; reflexivity|].
-      rewrite len_map_if.
-      destruct ((sw 32 (atoi s) >? Z.of_nat (length (i_ch p))) || (sw 32 (atoi s) <? 0)); [reflexivity|].
-      destruct (sw 32 (atoi s) <? Z.of_nat (length (i_ch p))); cbn [fst snd].
+      rewrite len_map_if. destruct (arr_index s) as [idx|]; [|reflexivity].
+      destruct ((idx >? Z.of_nat (length (i_ch p))) || (idx <? 0)); [reflexivity|].
+      destruct (idx <? Z.of_nat (length (i_ch p))); cbn [fst snd].
       * rewrite if_set_ch, map_app. cbn [map]. rewrite if_set_par, if_set_kl, firstn_map, skipn_map, !map_map. f_equal. f_equal. f_equal. f_equal.
         apply map_ext. intro a. apply if_inc_kl.
       * rewrite if_add_item, if_set_kl. reflexivity.
@@ -257,8 +258,9 @@ Proof.
   - destruct (child_pos par (last path [])) as [j|]; [|discriminate].
     destruct (nth_error (n_ch par) j) as [c0|] eqn:N; [|discriminate]. exact (K j c0 H N).
   - destruct (is_dash (last path [])); [discriminate|].
-    destruct ((0 <=? sw 32 (atoi (last path []))) && (sw 32 (atoi (last path [])) <? Z.of_nat (length (n_ch par)))); [|discriminate].
-    destruct (nth_error (n_ch par) (Z.to_nat (sw 32 (atoi (last path []))))) as [c0|] eqn:N; [|discriminate].
+    destruct (arr_index (last path [])) as [idx|]; [|discriminate].
+    destruct ((0 <=? idx) && (idx <? Z.of_nat (length (n_ch par)))); [|discriminate].
+    destruct (nth_error (n_ch par) (Z.to_nat idx)) as [c0|] eqn:N; [|discriminate].
     exact (K _ c0 H N).
 Qed.
 
